@@ -250,6 +250,23 @@ class Server:
                         continue
                     n = 1 if not self.cfg["multi"] else r.randint(1, len(ready))
                     ops = ready[:n]
+                    if self.cfg["multi"] and k.get("chains") and r.random() < 0.6:
+                        # a dependency-closed list: children ride behind their parents in one container, as the in-process
+                        # schedulers do (the DAG is not in the payload: known to this scheduler out of band)
+                        real = next((q for q in R.pipes if q.pipeline_id == p["pipeline_id"]
+                                     and q.runtime_status().arrival_tick == p["arrival_tick"]), None)
+                        if real is not None:
+                            st = {str(o.id): o for o in real.values}
+                            chosen = list(ops[:1])
+                            for oj in p["operators"]:
+                                o = st.get(oj["id"])
+                                if o is None or oj["id"] in chosen or oj["id"] in taken or not oj["is_assignable_state"]:
+                                    continue
+                                if all(str(q.id) in chosen or real.runtime_status().operator_states[q].value == "completed"
+                                       for q in o.parents) and r.random() < 0.8:
+                                    chosen.append(oj["id"])
+                            ops = chosen
+                            self.probe("chain_container", int(len(ops) > 1))
                     if self.cfg["multi"] and k.get("mixed") and r.random() < 0.3 and len(cand) > 1:
                         # one container for operators of two pipelines: the executor supports it, so an external
                         # scheduler may do it - a pipeline can then complete in a tick in which no container ends
@@ -435,7 +452,7 @@ def gen_scn(r, tier):
     scn["latency"] = r.choice(["fast", "slow", "wild"])
     scn["policy_knobs"] = {"p_asg": r.choice([0.3, 0.7, 1.0]), "p_sus": r.choice([0, 0.3, 1.0]),
                            "per_pool": r.choice([1, 2, 4]), "retry": r.random() < 0.6, "fractional_cpu": r.random() < 0.3,
-                           "mixed": r.random() < 0.4, "own_priorities": r.random() < 0.4}
+                           "mixed": r.random() < 0.4, "own_priorities": r.random() < 0.4, "chains": r.random() < 0.4}
     return scn
 
 
